@@ -7,6 +7,16 @@ that set (and raise alike).  Lifted through `Checker.check` (loader outcomes, `b
 namespace I18n.Meta
 open I18n.Check
 
+theorem enumerate_map_snd (i : Nat) (fs : List Text) : (enumerate i fs).map (·.2) = fs := by
+  induction fs generalizing i with
+  | nil => rfl
+  | cons f rest ih => simp [enumerate, ih]
+
+theorem enumerate_any (p : Text → Bool) (i : Nat) (fs : List Text) : (enumerate i fs).any (fun kv => p kv.2) = fs.any p := by
+  induction fs generalizing i with
+  | nil => rfl
+  | cons f rest ih => simp [enumerate, ih]
+
 /-- `st1` (on the first run) and `st2` (on the second) treat `R`-related states alike, as far as the tags `keep` selects -/
 def Respects {σ₁ σ₂ τ : Type} (R : σ₁ → σ₂ → Prop) (keep : τ → Bool) (st1 : Stage σ₁ τ) (st2 : Stage σ₂ τ) : Prop :=
   ∀ s s', R s s' →
